@@ -148,7 +148,8 @@ pub fn run_check(prop: &str, tier: &str) -> i32 {
             let mut s = suites::all_suites(thorough);
             s.extend(suites::full_ttl_suites(thorough));
             s.sort_by_key(|x| (x.name.starts_with("focus"), x.cfg.persistent));
-            seq_check(prop, tier, s, &["C01"], budget, &mut report);
+            // range results of a sequential history are part of the C01 statement (the model words them as C14)
+            seq_check(prop, tier, s, &["C01", "C14"], budget, &mut report);
         }
         "C02" => {
             let s = suites::crash_suites(thorough);
@@ -271,7 +272,7 @@ pub fn run_check(prop: &str, tier: &str) -> i32 {
         "C06" => c06::run(tier, &mut report),
         "C14" => {
             c14::run(tier, &mut report);
-            let s = pick(&["mem-ttl", "mem-core", "disk-v3", "disk-v3-ttl", "focus-v3-ttl"], thorough);
+            let s = pick(&["mem-ttl-range", "mem-ttl", "mem-core", "disk-v3", "disk-v3-ttl", "focus-v3-ttl"], thorough);
             seq_check(prop, tier, s, &["C14"], budget * 0.3, &mut report);
             let bound = if thorough { 3 } else { 2 };
             schedprops::run_programs(concprogs::scan_programs(thorough), bound, 3000, budget * 0.4, &schedprops::judge_linearizable, None, &["C14"], &mut report);
